@@ -20,7 +20,7 @@ LEVEL_NOTE = ("Trusted: Lean kernel (+ standard axioms); the model is written ag
               "sum/mean follow F16a. Column ranges, _col_any, argmax, mean: correspondence-only facets in this round.")
 TECHNIQUE = "Lean 4 proof of per-row decode = dense semantics for constructors, selection, reductions, ufuncs; correspondence"
 DESIGN_REF = "6.17"
-LEAN_MODULES = ["NpsVerif.Props.C17"]
+LEAN_MODULES = ["NpsVerif.Props.C17A", "NpsVerif.Props.C17B"]
 KERNELS = ()
 RULE = ("cases = input (matrix r x c <= 3x4 over 2-3 letters exhaustive-sampled / ragged array with row lengths 1..4 / interval list) "
         "x class (RunLength2dArray, RunLengthRaggedArray) x operation (to_array, len/shape/size, row int / slice / list / mask, "
